@@ -495,7 +495,10 @@ class Session:
                 self.extract_server_buf()
 
                 for record in self.server_tls_records:
-                    self.handle_tls_record(record, True)
+                    try:
+                        self.handle_tls_record(record, True)
+                    except Exception as e:
+                        logging.warning(f"Could not handle Record: {e}")
 
                 self.server_tls_records.clear()
             else:
@@ -504,7 +507,10 @@ class Session:
                 self.extract_client_buf()
 
                 for record in self.client_tls_records:
-                    self.handle_tls_record(record, False)
+                    try:
+                        self.handle_tls_record(record, False)
+                    except Exception as e:
+                        logging.warning(f"Could not handle Record: {e}")
 
                 self.client_tls_records.clear()
 
